@@ -24,15 +24,11 @@ class RichUprpEditor:
         lookup = RichCuwpLookupBuilder().build_lookup_from_rich_uprp(uprp)
         allocable_ids = self._generate_allocable_ids(lookup)
         new_cuwp_slots = [cuwp for cuwp in uprp.cuwp_slots]
+        # CUWP equality ignores the index, so this finds any equal CUWP already placed
+        cuwps_already_in_uprp = set(uprp.cuwp_slots)
         for i, cuwp_to_add in enumerate(unique_cuwps):
-            if not allocable_ids:
-                msg = (
-                    f"No more allocable IDs left.  Have we run out of CUWP slots?  "
-                    f"{i + 1} remaining CUWP slots that cannot be allocated."
-                )
-                self.log.error(msg)
-                raise ValueError(msg)
             if cuwp_to_add.index is not None:
+                self._throw_if_id_is_out_of_range(cuwp_to_add.index)
                 if not lookup.get_cuwp_by_id(cuwp_to_add.index):
                     new_cuwp_slots.append(
                         self._build_new_cuwp_slot_with_index(
@@ -49,7 +45,20 @@ class RichUprpEditor:
                         f"Current CUWP: {lookup.get_cuwp_by_id(cuwp_to_add.index)}, "
                         f"Attempted replacement: {cuwp_to_add}"
                     )
+            elif cuwp_to_add in cuwps_already_in_uprp:
+                self.log.info(
+                    f"Not allocating a new CUWP slot because an equal CUWP is "
+                    f"already in the UPRP: {cuwp_to_add}"
+                )
             else:
+                # only a CUWP that needs a new slot can run out of slots
+                if not allocable_ids:
+                    msg = (
+                        f"No more allocable IDs left.  Have we run out of CUWP slots?  "
+                        f"{i + 1} remaining CUWP slots that cannot be allocated."
+                    )
+                    self.log.error(msg)
+                    raise ValueError(msg)
                 new_cuwp_slots.append(
                     self._build_new_cuwp_slot_with_index(
                         cuwp_to_add, allocable_ids.pop()
@@ -69,6 +78,15 @@ class RichUprpEditor:
             )
         # TODO: fix this, as tests can cause this to fail since order is not deterministic!
         return unique_cuwps
+
+    def _throw_if_id_is_out_of_range(self, cuwp_id: int) -> None:
+        if not 1 <= cuwp_id <= MAX_CUWP_SLOTS:
+            msg = (
+                f"CUWP id {cuwp_id} is outside the valid range "
+                f"[1, {MAX_CUWP_SLOTS}] and cannot be stored in the UPRP."
+            )
+            self.log.error(msg)
+            raise ValueError(msg)
 
     @classmethod
     def _generate_allocable_ids(cls, cuwp_lookup: RichCuwpLookup) -> list[int]:
